@@ -23,20 +23,24 @@ import (
 	"github.com/orbs-network/lean-helix-go/services/storage"
 	"github.com/orbs-network/lean-helix-go/spec/types/go/primitives"
 	"github.com/orbs-network/lean-helix-go/spec/types/go/protocol"
+	"github.com/orbs-network/scribe/log"
 )
 
 func init() {
 	engines["world"] = func(cfg *runCfg) error { return runWorldMode(cfg, "world", false) }
 	// the known-finding stream: Byzantine leaders also send standalone PREPREPAREs in views above 0 (KF-1)
 	engines["worldkf1"] = func(cfg *runCfg) error { return runWorldMode(cfg, "worldkf1", true) }
+	// the same worlds over a consumer that accepts a missing block. The model's consumer does not (validProposal None =
+	// false), so these runs are judged by the monitors alone (C12: no panic, no wedge) and produce no Coq cases.
+	engines["worldnil"] = func(cfg *runCfg) error { return runWorldModeX(cfg, "worldnil", false, false) }
 }
 
 const worldInst = 7
 
 // ---- election scheduler fake ----
 type recScheduler struct {
-	node *simNode
-	cb   func(h primitives.BlockHeight, v primitives.View, cb interfaces.OnElectionCallback)
+	node       *simNode
+	cb         func(h primitives.BlockHeight, v primitives.View, cb interfaces.OnElectionCallback)
 	armH, armV uint64
 	armed      bool
 	ch         chan *interfaces.ElectionTrigger
@@ -48,7 +52,7 @@ func (s *recScheduler) RegisterOnElection(h primitives.BlockHeight, v primitives
 	s.node.outs = append(s.node.outs, fmt.Sprintf("OArm %d %d", uint64(h), uint64(v)))
 }
 func (s *recScheduler) ElectionChannel() chan *interfaces.ElectionTrigger { return s.ch }
-func (s *recScheduler) CalcTimeout(v primitives.View) time.Duration        { return time.Second }
+func (s *recScheduler) CalcTimeout(v primitives.View) time.Duration       { return time.Second }
 func (s *recScheduler) Stop() {
 	s.cb = nil
 	s.armed = false
@@ -70,6 +74,9 @@ func (b *nodeBlockUtils) ValidateBlockProposal(ctx context.Context, h primitives
 	vb, _ := block.(*vblock)
 	n := b.node
 	if block == nil || vb == nil {
+		if n.w.nilOK {
+			return nil // a lenient consumer: a missing block is "nothing to object to"
+		}
 		return errors.New("nil block")
 	}
 	ok := vb.bad&(1<<n.id) == 0 && vb.height == h && string(blockHash(vb)) == string(hash)
@@ -82,27 +89,29 @@ func (b *nodeBlockUtils) ValidateBlockProposal(ctx context.Context, h primitives
 func (b *nodeBlockUtils) ValidateBlockCommitment(h primitives.BlockHeight, block interfaces.Block, hash primitives.BlockHash) bool {
 	vb, _ := block.(*vblock)
 	if block == nil || vb == nil {
-		return false
+		return b.node.w.nilOK
 	}
 	return vb.height == h && string(blockHash(vb)) == string(hash)
 }
 
 type simNode struct {
-	w      *world
-	id     uint64 // member id token = index in the base committee
-	vn     *leanhelix.VerifNode
-	sched  *recScheduler
-	outs   []string // Coq outputs of the event in progress
-	steps  []string // Coq tsteps
-	fresh  uint64
-	commits []commitRec
-	rounds  []uint64
-	hvs     [][2]uint64
-	sentLog []*aMsg // everything this node sent (abstract, exact)
-	curSent []*aMsg
-	stored, storedBefore map[string]bool
+	w                      *world
+	id                     uint64 // member id token = index in the base committee
+	vn                     *leanhelix.VerifNode
+	sched                  *recScheduler
+	outs                   []string // Coq outputs of the event in progress
+	steps                  []string // Coq tsteps
+	fresh                  uint64
+	commits                []commitRec
+	rounds                 []uint64
+	hvs                    [][2]uint64
+	sentLog                []*aMsg // everything this node sent (abstract, exact)
+	curSent                []*aMsg
+	stored, storedBefore   map[string]bool
 	storedPP, storedPPPrev map[string]bool
-	panicked bool
+	panicked               bool
+	curWellFormed          bool   // the event in progress delivers a message the harness decoded completely
+	swallowed              string // a panic the worker's guard swallowed during it
 }
 
 type commitRec struct {
@@ -114,36 +123,37 @@ type commitRec struct {
 
 type pend struct {
 	genuine bool
-	to  uint64
-	msg *aMsg
-	raw *interfaces.ConsensusRawMessage
+	to      uint64
+	msg     *aMsg
+	raw     *interfaces.ConsensusRawMessage
 }
 
 type world struct {
-	r           *rand.Rand
-	ord         *rand.Rand // order of the lists the storage wrapper returns
-	rep         *Report
-	kr          *keyring
-	codec       *codec
-	n           int
-	weights     []uint64
-	rot         uint64
-	byz         map[uint64]bool
-	honest      []*simNode
-	byId        map[uint64]*simNode
-	pool        []pend
-	history     []*aMsg          // every message ever put on the network (abstract, exact order)
-	signed      map[string]bool  // (signer|content) pairs genuinely signed by honest members
-	proposedBy  map[uint64]uint64
-	validatedBy map[uint64][]uint64
-	byzBlocks   uint64
-	failCommit  map[uint64][]uint64 // node -> heights
-	excl        map[uint64][]uint64
-	trace       []string // human-readable schedule (for replay files)
-	kf1         bool     // standalone PREPREPARE in view>0 stream enabled
-	kf1Adopted  bool     // some correct node adopted a standalone PREPREPARE in a view above 0 in this world
-	chain       map[uint64]*aBlock // committed block per height (first commit seen)
-	held        map[uint64]bool    // nodes whose inbox is currently held back
+	r             *rand.Rand
+	ord           *rand.Rand // order of the lists the storage wrapper returns
+	rep           *Report
+	kr            *keyring
+	codec         *codec
+	n             int
+	weights       []uint64
+	rot           uint64
+	byz           map[uint64]bool
+	honest        []*simNode
+	byId          map[uint64]*simNode
+	pool          []pend
+	history       []*aMsg         // every message ever put on the network (abstract, exact order)
+	signed        map[string]bool // (signer|content) pairs genuinely signed by honest members
+	proposedBy    map[uint64]uint64
+	validatedBy   map[uint64][]uint64
+	byzBlocks     uint64
+	failCommit    map[uint64][]uint64 // node -> heights
+	excl          map[uint64][]uint64
+	trace         []string           // human-readable schedule (for replay files)
+	nilOK         bool               // lenient consumer: ValidateBlockProposal / ValidateBlockCommitment accept a missing block (monitors only, no model)
+	kf1           bool               // standalone PREPREPARE in view>0 stream enabled
+	kf1Adopted    bool               // some correct node adopted a standalone PREPREPARE in a view above 0 in this world
+	chain         map[uint64]*aBlock // committed block per height (first commit seen)
+	held          map[uint64]bool    // nodes whose inbox is currently held back
 	syncBlocks    map[uint64]*aBlock // last block a member was synced to, per height
 	slowCommits   bool
 	slowUntilView uint64
@@ -194,9 +204,24 @@ func (w *world) newNode(id uint64) *simNode {
 		KeyManager:              &keyManager{w.kr, idBytes(id)},
 		OverrideElectionTrigger: n.sched,
 		Storage:                 &recStorage{storage.NewInMemoryStorage(), n},
+		Logger:                  &recLogger{n},
 	}
 	n.vn = leanhelix.VerifNewNode(cfg, n.onCommit, n.onNewRound)
 	return n
+}
+
+// recLogger: the worker's guard around the handling of a message swallows a panic and says so in the log. For bytes the
+// readers cannot read that is the intended outcome; for a message the harness's own decoder read completely it means a
+// handler crashed on well-formed input (C12) - the event in progress tells which.
+type recLogger struct{ n *simNode }
+
+func (l *recLogger) Debug(format string, args ...interface{})           {}
+func (l *recLogger) Error(format string, args ...interface{})           {}
+func (l *recLogger) ConsensusTrace(format string, fields ...*log.Field) {}
+func (l *recLogger) Info(format string, args ...interface{}) {
+	if strings.Contains(format, "MALFORMED MESSAGE IGNORED - ") && l.n.curWellFormed {
+		l.n.swallowed = fmt.Sprintf(format, args...)
+	}
 }
 
 func (n *simNode) onCommit(ctx context.Context, block interfaces.Block, proofBytes []byte) error {
@@ -258,6 +283,13 @@ func (n *simNode) apply(evCoq string, desc string, ev evInfo, f func()) {
 	for k := range n.storedPP {
 		n.storedPPPrev[k] = true
 	}
+	n.curWellFormed, n.swallowed = ev.kind == "deliver" && ev.msg != nil, ""
+	defer func() {
+		if n.swallowed != "" {
+			w.rep.finding("C12", "handler-panicked-on-well-formed-message", fmt.Sprintf("node %d: a panic was swallowed while handling %s: %s", n.id, desc, n.swallowed), w.traceInput())
+		}
+		n.curWellFormed = false
+	}()
 	func() {
 		defer func() {
 			if e := recover(); e != nil {
@@ -471,7 +503,9 @@ func (w *world) inject(n *simNode, m *aMsg, why string) {
 	w.deliver(n, m, raw)
 }
 
-func runWorldMode(cfg *runCfg, name string, kf1 bool) error { return runWorldModeX(cfg, name, kf1, false) }
+func runWorldMode(cfg *runCfg, name string, kf1 bool) error {
+	return runWorldModeX(cfg, name, kf1, false)
+}
 
 func runWorldModeX(cfg *runCfg, name string, kf1 bool, live bool) error {
 	r := rand.New(rand.NewSource(cfg.seed))
@@ -489,7 +523,16 @@ func runWorldModeX(cfg *runCfg, name string, kf1 bool, live bool) error {
 	for i := 0; i < runs; i++ {
 		w := newWorld(r, rep, cfg.seed*100000+int64(i))
 		w.kf1 = kf1
-		if live {
+		nilOK := name == "worldnil"
+		w.nilOK = nilOK
+		if nilOK && i == 0 {
+			w = directedWorld(r, rep, cfg.seed*100000, 1)
+			w.nilOK = true
+			w.missingBlockScript()
+			rep.count("world:directed-missing-block-script")
+		} else if nilOK {
+			w.run()
+		} else if live {
 			w.run()
 			if why, ok := w.stabilise(); ok {
 				rep.count("live:stabilised-worlds")
@@ -546,6 +589,9 @@ func runWorldModeX(cfg *runCfg, name string, kf1 bool, live bool) error {
 		rep.Extra["stabilisation"] = "after the random prefix: laggards synced to the height being decided, inboxes released, then rounds of (Byzantine traffic; deliver everything pending; if the height is not committed, the deciding members in the lowest view time out together); stall = no commit within view-spread + 2n + 3 rounds"
 	}
 	rep.Rule = fmt.Sprintf("%d random worlds (4-7 members, unit/random/heavy weights, rotation 0/1, Byzantine subsets of weight <= f, 40-260 scheduler steps: deliveries, duplicates, drops, elections, syncs, mutated replays, Byzantine strategies); one case per honest node = its whole event/output/state trace; non-trivial = the node committed at least one block; worlds are distinct by construction (seeded)", runs)
+	if name == "worldnil" {
+		cases = nil // no model for the lenient consumer
+	}
 	// one Coq process holds at most perFile traces (memory grows with the number of traces evaluated in one file)
 	const perFile, shard = 480, 40
 	rep.CaseFiles = nil
